@@ -173,9 +173,25 @@ func runC10(r *Run) {
 				_, rd, err = c.Reader(ctx)
 				if err == nil {
 					buf := make([]byte, 1+int(p.seed%5000))
+					refused := false
 					for {
 						n, e := rd.Read(buf)
 						got = append(got, buf[:n]...)
+						if e == nil && !refused && p.seed%3 == 1 && !spec.Compress && len(p.frags) >= 2 && len(got) < p.frags[0] {
+							// (only while the first, non-final fragment is being read: from the final
+							// frame on the library cannot tell that the message is still open)
+							// a second Reader call while this message is still open is refused;
+							// its context is cancelled afterwards. That call is over: its
+							// context must not bound the reads of the open message.
+							refused = true
+							rctx, rcancel := context.WithCancel(bg)
+							if _, _, re := c.Reader(rctx); re == nil {
+								return fmt.Errorf("a second Reader was handed out while a message was open")
+							}
+							rcancel()
+							lastCancelled = fmt.Sprintf("op%d/refused-Reader", i)
+							r.S.Count("probe.refused-reader-context-cancelled-mid-message")
+						}
 						if e == io.EOF {
 							break
 						}
